@@ -156,19 +156,19 @@ pub trait Interface: ErrorHandler {
             }
     
             read_offset = read_end;
- 
-            // Ensure `read_from` does not exceed the buffer length
+
+            // If there is unprocessed data, shift it to the beginning of the buffer.
+            if proc_offset > 0 {
+                cmd_buf.copy_within(proc_offset..read_end, 0);
+                read_offset -= proc_offset;
+                proc_offset = 0;
+            }
+
+            // The buffer is full of unprocessed data without a terminator: discard it.
             if read_offset >= cmd_buf.len() {
                 #[cfg(feature = "defmt")]
                 defmt::warn!("SCPI buffer overflow, resetting buffer");
                 read_offset = 0;
-                proc_offset = 0;
-            }
-            // If there is unprocessed data, shift it to the beginning of the buffer.
-            else if proc_offset > 0 {
-                cmd_buf.copy_within(proc_offset..read_end, 0);
-                read_offset -= proc_offset;
-                proc_offset = 0;
             }
         }
     }
